@@ -194,7 +194,7 @@ void Executor::op_file(const Op& op, TaskCtx& t) {
       }
       if (outcome != 1 && !faulted) viol("C12", "valid_file_rejected", "readFile failed on a file written by SoPlex itself: " + f + " " + exc);
     } else if (kind == "bas") {
-      if (outcome == 1 && o->s->hasBasis() && (opt_.want("C04") || opt_.want("C14") || opt_.want("C13"))) check_basis(*o, false);
+      if (outcome == 1 && o->s->hasBasis() && (opt_.want("C04") || opt_.want("C14") || opt_.want("C13"))) { if (faulted && !opt_.want("C04") && opt_.want("C13")) basis_prop_ = "C13"; check_basis(*o, false); basis_prop_ = "C04"; }
       if (outcome == 1 && !faulted && opt_.want("C14") && o->savedBasisName == name && (int)o->savedRows.size() == o->s->numRows() && (int)o->savedCols.size() == o->s->numCols() && !o->savedRows.empty()) {
         // the file was written by this object earlier in the history; whatever basis the object holds now, reading restores the saved statuses
         std::vector<int> r2, c2; o->s->getBasis(r2, c2);
